@@ -11,13 +11,14 @@ PROPS = {
         level="exploration",
         technique="property-based testing (rapid): generated instance-type vectors x configurations run through the real "
                   "capacity arithmetic (limits; legacy daemon builder steps InitService / node-label handling / "
-                  "initInstanceLimit / getPoolConfig; Node CR flavor; node annotations and extended resources, incl. an "
+                  "initInstanceLimit / getPoolConfig / initTrunk over an in-memory factory; Node CR flavor; node annotations and extended resources, incl. an "
                   "in-place instance-type change), checked against inequalities computed from the raw vector",
         rule="cases drawn by rapid generators (instance-type description, daemon/controller config, node labels incl. "
-             "exclusive-ENI mode on daemon and controller side, attached-ENI status, optional resize of the same instance "
+             "exclusive-ENI mode on daemon and controller side, attached-ENI status, interfaces attached to the node "
+             "when the daemon starts (secondary / ERDMA / trunk, full or with free slots), factory create faults, optional resize of the same instance "
              "to another generated type); non-trivial = at least one requested feature the instance type lacks, or a "
              "configured maximum (max_eni / pool size / min_eni) above the instance limit, or a junk limit field, or a "
-             "resize to a smaller type; "
+             "resize to a smaller type, or trunking asked for on a node without a free interface slot; "
              "distinct = distinct scenario hash",
         assumptions=[
             "instance types have at least one interface and one IPv4 address per interface; pool sizes are >= 0",
@@ -27,7 +28,8 @@ PROPS = {
         level_text="generated limit vectors and configurations checked against an independent arithmetic reference "
                    "at four call sites (the daemon one through the real NetworkServiceBuilder steps, so every step sees "
                    "the daemon mode the builder hands it; IPv6 is held against the pool that is actually sized: "
-                   "MaxIPPerENI <= IPv6 per interface) and through a closed loop (controller -> daemon-side reconcile -> controller) "
+                   "MaxIPPerENI <= IPv6 per interface; interfaces attached + created by initTrunk <= attachable secondary "
+                   "interfaces, trunking off when no slot is free) and through a closed loop (controller -> daemon-side reconcile -> controller) "
                    "over the in-memory API server; exploration, not proof",
         level_note="k8s.NewK8S needs an API server: the two node-label statements of InitK8S are replayed verbatim on a "
                    "stub k8s.Kubernetes; limits reach the daemon through the node annotation only (b.aliyunClient is a "
